@@ -42,12 +42,14 @@ def run(ctx):
           sn_ = sn
           sn = '%s[%s]' % (sn_, shape)
           try:
-            mvs = [e for _, e in p.macverifies()]
+            # successful full-length MAC comparisons in either spelling: Mac::verify*, or ct_eq / == on the finalized tag
+            mvs = mac_checks(p)
             rep.ob('R01.1', 'three MAC comparisons on the honest path', len(mvs) == 3, '%d' % len(mvs), '', sn)
-            for e in mvs:
-                _, outcome, key, msg, tag, strength, sp = e
+            for _, key, msg, tag, how, sp in mvs:
                 want = App('Mac', key, msg)
-                good = tag == want and outcome == 'Ok'
+                good = tag == want
+                if not sp:
+                    sp = '(%s on the finalized tag)' % how
                 n_mac += int(good)
                 rep.ob('R01.1', 'honest MAC comparison at %s cannot fail: tag is the MAC of the verifier\'s own key and message' % core.rel(sp).split(':')[0], good,
                        'tag      %s\nexpected %s' % (show(tag)[:700], show(want)[:700]), core.rel(sp), sn, sample='tag == Mac(k, m) at %s' % core.rel(sp))
